@@ -7,8 +7,18 @@ NPROC = int(os.environ.get('VERIF_JOBS', '0')) or min(16, os.cpu_count() or 1)
 _fn = None
 
 
+class _Fatal:
+    def __init__(self, text):
+        self.text = text
+
+
 def _call(arg):
-    return _fn(arg)
+    try:
+        return _fn(arg)
+    except Exception:
+        raise
+    except BaseException as e:  # e.g. UnsupportedRngCall: must reach the parent instead of killing the worker silently
+        return _Fatal(f'{type(e).__name__}: {e}')
 
 
 def pmap(fn, items, jobs=None, chunksize=1, fresh=False):
@@ -23,7 +33,11 @@ def pmap(fn, items, jobs=None, chunksize=1, fresh=False):
     _fn = fn
     ctx = mp.get_context('fork')
     with ctx.Pool(min(jobs, len(items)), maxtasksperchild=1 if fresh else None) as pool:
-        return pool.map(_call, items, 1 if fresh else chunksize)
+        results = pool.map(_call, items, 1 if fresh else chunksize)
+    for r in results:
+        if isinstance(r, _Fatal):
+            raise SystemExit(f'INTERNAL: harness limit reached in a worker: {r.text}')
+    return results
 
 
 def shards(seq, n=None):
